@@ -446,6 +446,19 @@ func registerVX() {
 		store(dst.V.(*Value), deepCopy(msg.body, map[interface{}]Value{}))
 		return m.C.True
 	}
+	intrinsics[p+"AnswerTo"] = func(m *Machine, fr *frame, args []Value) Value {
+		req := opaqueOf(args[0]).Data.(*diamMsg)
+		msg := req.answer
+		if msg == nil || msg.body == nil {
+			return m.C.False
+		}
+		dst := args[1].(Iface)
+		if !types.Identical(deref(dst.T), msg.bodyT) {
+			m.unsupported("vx.AnswerTo into %v of a %v", dst.T, msg.bodyT)
+		}
+		store(dst.V.(*Value), deepCopy(msg.body, map[interface{}]Value{}))
+		return m.C.True
+	}
 	intrinsics[p+"Symbolic"] = func(m *Machine, fr *frame, args []Value) Value { return m.C.True }
 	intrinsics[p+"IsConcreteRun"] = func(m *Machine, fr *frame, args []Value) Value { return m.C.False }
 	intrinsics[p+"Time"] = vxTime
@@ -706,6 +719,38 @@ func registerStd() {
 	}
 
 	// math
+	minmax := func(isMin bool) func(m *Machine, fr *frame, args []Value) Value {
+		return func(m *Machine, fr *frame, args []Value) Value {
+			x, y := args[0].(Float), args[1].(Float)
+			if x.OK && y.OK {
+				if isMin {
+					return Float{OK: true, F: math.Min(x.F, y.F), W: 64}
+				}
+				return Float{OK: true, F: math.Max(x.F, y.F), W: 64}
+			}
+			asInt := func(f Float) *smt.Term {
+				if f.Int != nil {
+					return f.Int
+				}
+				if f.OK && f.F == math.Trunc(f.F) && math.Abs(f.F) <= 1<<53 {
+					return m.i64(int64(f.F))
+				}
+				return nil
+			}
+			a, b := asInt(x), asInt(y)
+			if a == nil || b == nil {
+				return Float{W: 64}
+			}
+			// rounding to nearest is monotone: min(RN(a),RN(b)) = RN(min(a,b))
+			lt := m.C.Slt(a, b)
+			if isMin {
+				return Float{W: 64, Int: m.C.Ite(lt, a, b)}
+			}
+			return Float{W: 64, Int: m.C.Ite(lt, b, a)}
+		}
+	}
+	I["math.Min"] = minmax(true)
+	I["math.Max"] = minmax(false)
 	I["math.Pow10"] = func(m *Machine, fr *frame, args []Value) Value {
 		t := args[0].(*smt.Term)
 		if !t.IsConst() {
